@@ -65,7 +65,7 @@ pub fn render(spec: &EnumSpec) -> String {
         if v.disabled {
             continue;
         }
-        let e = format!("({} as EC)", render_default_value(spec, i));
+        let e = format!("vf_core::id::<EC>({})", render_default_value(spec, i));
         body.push_str(&format!("    printed.push(({i}, \"Display\", vf_core::guard(|| vec![format!(\"{{}}\", {e})])));\n", i = i, e = e));
         body.push_str(&format!("    printed.push(({i}, \"as_ref\", vf_core::guard(|| vec![AsRef::<str>::as_ref(&{e}).to_string()])));\n", i = i, e = e));
         body.push_str(&format!("    printed.push(({i}, \"From<&E>\", vf_core::guard(|| vec![<&'static str as From<&EC>>::from(&{e}).to_string()])));\n", i = i, e = e));
